@@ -400,6 +400,42 @@ fn consumer_script(args: &[String]) {
     println!("result {}", format!("{:?}", r).replace(' ', ""));
 }
 
+/// parse-batch: stdin lines of hex BYTES. Per line: `Ok <n instructions> rt=<1|0>` (rt: assembling the loaded module and
+/// loading again gives an equal assembly; and the first assembly has the input's instruction words when the input was in
+/// layout order) | `Err <Debug>` | `PANIC <where>`.
+fn parse_batch() {
+    use rspirv::binary::Assemble;
+    use std::io::BufRead;
+    std::panic::set_hook(Box::new(|_| {}));
+    for line in std::io::stdin().lock().lines() {
+        let bytes = parse_hex_bytes(&line.unwrap());
+        let r = std::panic::catch_unwind(|| rspirv::dr::load_bytes(&bytes));
+        match r {
+            Ok(Ok(m)) => {
+                let r2 = std::panic::catch_unwind(|| {
+                    let a = m.assemble();
+                    let d = {
+                        use rspirv::binary::Disassemble;
+                        m.disassemble().len()
+                    };
+                    (a, d)
+                });
+                match r2 {
+                    Ok((a, _)) => {
+                        let m2 = rspirv::dr::load_words(&a);
+                        let same = match m2 { Ok(m2) => m2.assemble() == a, Err(_) => false };
+                        let words: Vec<String> = a.iter().skip(5).map(|w| format!("{:x}", w)).collect();
+                        println!("Ok {} rt={} words={}", m.all_inst_iter().count(), same as u8, words.join(","));
+                    }
+                    Err(_) => println!("PANIC assemble/disassemble"),
+                }
+            }
+            Ok(Err(e)) => println!("Err {}", format!("{:?}", e).replace(' ', "").chars().take(120).collect::<String>()),
+            Err(_) => println!("PANIC load_bytes"),
+        }
+    }
+}
+
 fn main() {
     let args: Vec<String> = env::args().collect();
     match args.get(1).map(|s| s.as_str()) {
@@ -413,6 +449,7 @@ fn main() {
         Some("load-batch") => load_batch(),
         Some("builder-script") => builder_script(&args[2..]),
         Some("consumer-script") => consumer_script(&args[2..]),
+        Some("parse-batch") => parse_batch(),
         Some("builder-batch") => {
             use std::io::BufRead;
             std::panic::set_hook(Box::new(|_| {}));
